@@ -25,6 +25,19 @@ def new_symlist(st, T, elem, lens=None, kind="scalar"):
     return r
 
 
+def length(st, v):
+    """len of a list reference, concrete or symbolic."""
+    c = st.cell(v)
+    return c["__symlen__"] if "__symlen__" in c else len(c["__list__"])
+
+
+def element(st, v, k):
+    c = st.cell(v)
+    if "__symlen__" in c:
+        return c["__symelem__"](k)
+    return c["__list__"][k]
+
+
 def is_symlist(st, v):
     return isinstance(v, Ref) and v.kind == "list" and "__symlen__" in st.cell(v)
 
@@ -162,7 +175,11 @@ def np_array(I, st, args, kw, node):
     if is_symlist(st, v):
         c = st.cell(v)
         if c["__kind__"] == "array":
-            raise Unsupported("np.array of a list of batches (ragged)")
+            shp = c.get("__uniform_shape__")
+            if shp is None:
+                raise Unsupported("np.array of a list of batches (ragged)")
+            el0 = c["__symelem__"]
+            return st.new_arr(Arr((c["__symlen__"],) + tuple(shp), lambda k, *r, el0=el0: el0(k).at(*r), el0(0).sort))
         el = c["__symelem__"]
         if c["__kind__"] == "tuple":
             p0 = el(0)
